@@ -503,9 +503,9 @@ server id and a (well-typed) IA_NA the REQUEST has its OWN transaction id `xid`
 (not the ADVERTISE's) and carries exactly: the advertise's first client id, its
 first server id, elapsed-time 0, its FIRST IA_NA, its first IA_PD if any (no
 further IA_NA/IA_PD, no IA_TA), the option request for DNS and domain search
-list, the first vendor class if any.  The accepted answer is the FIRST message
-routed to the call (the matcher is nil: every message with that transaction id
-is accepted, whatever its type); an empty stream is the no-response error. -/
+list, the first vendor class if any.  The accepted answer is the FIRST REPLY
+routed to the call (messages of other types carrying that transaction id are
+passed over); a stream without REPLY is the no-response error. -/
 theorem C13_v6_request (xid axid : Bytes) (os : List Opt6) (cid sid ia : Opt6) (stream : List Msg6)
     (hc : getOne ocClientID os = some cid) (hs : getOne ocServerID os = some sid)
     (hi : getOne ocIANA os = some ia) (hty : IANATyped os) :
@@ -513,14 +513,31 @@ theorem C13_v6_request (xid axid : Bytes) (os : List Opt6) (cid sid ia : Opt6) (
       [.msg V6.mtRequest xid
         ([cid, sid, .elapsed 0, ia] ++ (getOne ocIAPD os).toList ++
           [.oro [ocDNS, ocDomainSearchList]] ++ (getOne ocVendorClass os).toList)] ∧
-    (∀ r rest, stream = r :: rest →
+    (∀ pre r post, stream = pre ++ r :: post → r.typ = mtReply → (∀ q ∈ pre, q.typ ≠ mtReply) →
       (request6 xid (.msg mtAdvertise axid os) [] stream).res = .msg r) ∧
-    (stream = [] → (request6 xid (.msg mtAdvertise axid os) [] stream).res = .errNoResponse) := by
+    ((∀ q ∈ stream, q.typ ≠ mtReply) →
+      (request6 xid (.msg mtAdvertise axid os) [] stream).res = .errNoResponse) := by
   unfold request6
   rw [Dhcp.Props.C16_request xid axid os cid sid ia hc hs hi hty]
   refine ⟨rfl, ?_, ?_⟩
-  · rintro r rest rfl; rfl
-  · rintro rfl; rfl
+  · rintro pre r post rfl hr hpre
+    have : (pre ++ r :: post).find? (isMessageType6 mtReply []) = some r := by
+      rw [List.find?_append]
+      have h1 : pre.find? (isMessageType6 mtReply []) = none := by
+        rw [List.find?_eq_none]
+        intro q hq
+        have := hpre q hq
+        simp [isMessageType6, this]
+      rw [h1]
+      simp [isMessageType6, hr]
+    simp only [call6, sendAndRead6, this]
+  · intro hall
+    have : stream.find? (isMessageType6 mtReply []) = none := by
+      rw [List.find?_eq_none]
+      intro q hq
+      have := hall q hq
+      simp [isMessageType6, this]
+    simp only [call6, sendAndRead6, this]
 
 /-- an ADVERTISE the builder refuses (wrong type, no client id, no server id,
 no IA_NA) is an error of `Request` and nothing is sent; with user modifiers the
@@ -531,7 +548,7 @@ theorem C13_v6_request_build (xid : Bytes) (adv : Msg6) (mods : List Mod6) (stre
     (∀ req, newRequestFromAdvertise xid adv mods = .ok req →
       (request6 xid adv mods stream).sent = [req] ∧
       (request6 xid adv mods stream).res =
-        (match stream.head? with
+        (match stream.find? (isMessageType6 mtReply []) with
          | some r => .msg r
          | none => .errNoResponse)) ∧
     newRequestFromAdvertise xid adv mods =
@@ -540,24 +557,36 @@ theorem C13_v6_request_build (xid : Bytes) (adv : Msg6) (mods : List Mod6) (stre
   · unfold request6; rw [h]; exact ⟨rfl, rfl⟩
   · unfold request6; rw [h]; exact ⟨rfl, rfl⟩
 
-/-- The reading "REQUEST and REPLY are paired": what `Request` returns is a REPLY. -/
-def C13_v6_reply_type_full : Prop :=
-  ∀ (xid : Bytes) (adv : Msg6) (mods : List Mod6) (stream : List Msg6) (r : Msg6),
-    (request6 xid adv mods stream).res = .msg r → r.typ = mtReply
+/-- **C13 (v6 request/reply pairing).** What `Request` returns is a REPLY
+(since /repo commit 80184de; before it the matcher was nil and a second
+ADVERTISE carrying the REQUEST's transaction id was returned as the answer). -/
+theorem C13_v6_reply_type (xid : Bytes) (adv : Msg6) (mods : List Mod6) (stream : List Msg6) (r : Msg6)
+    (h : (request6 xid adv mods stream).res = .msg r) : r.typ = mtReply := by
+  unfold request6 call6 at h
+  cases hb : newRequestFromAdvertise xid adv mods with
+  | ok m =>
+    rw [hb] at h
+    simp only [sendAndRead6] at h
+    cases hf : stream.find? (isMessageType6 mtReply []) with
+    | none => rw [hf] at h; cases h
+    | some x =>
+      rw [hf] at h
+      have hx : x = r := by injection h
+      have := List.find?_some hf
+      subst hx
+      simpa [isMessageType6] using this
+  | err => rw [hb] at h; cases h
+  | panic => rw [hb] at h; cases h
 
 private def exCid : Opt6 := .clientID (.ll 1 [2, 0, 0, 0, 0, 1])
 private def exSid : Opt6 := .serverID (.ll 1 [2, 0, 0, 0, 0, 9])
 private def exIana : Opt6 := .iana [0, 0, 0, 1] 0 0 [.iaaddr (some (zeros 15 ++ [7])) 100 200 []]
 private def exAdv : Msg6 := .msg mtAdvertise [1, 2, 3] [exCid, exSid, exIana]
 
-/-- False of the model and of the code: nclient6's `Request` passes a nil
-matcher, so the first message carrying the REQUEST's transaction id is returned
-whatever it is — here a second ADVERTISE. -/
-theorem C13_v6_reply_type_counterexample : ¬ C13_v6_reply_type_full := by
-  intro h
-  have := h [9, 9, 9] exAdv [] [.msg mtAdvertise [9, 9, 9] [exCid, exSid]] (.msg mtAdvertise [9, 9, 9] [exCid, exSid])
-    rfl
-  revert this; decide
+/-- non-vacuity: a late ADVERTISE before the REPLY is passed over -/
+example : (request6 [9, 9, 9] exAdv []
+    [.msg mtAdvertise [9, 9, 9] [exCid, exSid], .msg mtReply [9, 9, 9] [exCid, exSid, exIana]]).res =
+    .msg (.msg mtReply [9, 9, 9] [exCid, exSid, exIana]) := by rfl
 
 /-- **C13 (v6 rapid solicit).** The SOLICIT carries a rapid-commit option.  The
 first routed message of type REPLY or ADVERTISE decides: a REPLY is returned
